@@ -136,6 +136,7 @@ func Load(repo string) (*Prog, error) {
 		forwardSpills(f)
 	}
 	ResolveRoles(p)
+	ResolveParamFields(p)
 	return p, nil
 }
 
@@ -156,6 +157,11 @@ func (p *Prog) Func(sp *ssa.Package, name string) *ssa.Function {
 	}
 	for f, canon := range funcAlias {
 		if canon == name && f.Signature.Recv() == nil && f.Pkg == sp {
+			return f
+		}
+	}
+	for f, canon := range fullAlias {
+		if canon == name && f.Pkg == sp {
 			return f
 		}
 	}
@@ -193,6 +199,11 @@ func (p *Prog) Method(sp *ssa.Package, typ, name string) *ssa.Function {
 			return f
 		}
 	}
+	for f, canon := range fullAlias {
+		if canon == typ+"."+name && f.Pkg == sp {
+			return f
+		}
+	}
 	return nil
 }
 
@@ -221,6 +232,13 @@ func (p *Prog) Methods(sp *ssa.Package, typ string) []*ssa.Function {
 			out = append(out, f)
 		}
 	}
+	// unexported helpers written as plain functions that take the object as their first argument count as its methods
+	// (`func recycle(q *Queue, n *Node)` for `func (q *Queue) recycle(n *Node)`)
+	for _, f := range p.Funcs {
+		if f.Parent() == nil && f.Pkg == sp && f.Signature.Recv() == nil && f.Object() != nil && !f.Object().Exported() && len(f.Params) > 0 && rawTypeName(f.Params[0].Type()) == canonType(n.Obj().Name()) {
+			out = append(out, f)
+		}
+	}
 	sort.Slice(out, func(i, j int) bool { return out[i].Name() < out[j].Name() })
 	return out
 }
@@ -241,6 +259,17 @@ func (p *Prog) FuncOf(o *types.Func) *ssa.Function {
 func Origin(f *ssa.Function) *ssa.Function {
 	if f == nil {
 		return nil
+	}
+	if strings.HasPrefix(f.Synthetic, "thunk for") && len(f.Blocks) == 1 {
+		// method expression `T.m(recv, args...)`: the thunk only forwards to the method, with the receiver as first argument -
+		// exactly the shape every rule already sees for a method call
+		for _, ins := range f.Blocks[0].Instrs {
+			if c, ok := ins.(*ssa.Call); ok && !c.Call.IsInvoke() {
+				if g := c.Call.StaticCallee(); g != nil && g != f && len(c.Call.Args) == len(f.Params) {
+					return Origin(g)
+				}
+			}
+		}
 	}
 	if o := f.Origin(); o != nil {
 		return o
@@ -276,6 +305,9 @@ func FuncName(f *ssa.Function) string {
 		pkg = f.Pkg.Pkg.Name() + "."
 	} else if o := f.Object(); o != nil && o.Pkg() != nil {
 		pkg = o.Pkg().Name() + "."
+	}
+	if c, ok := fullAlias[f]; ok {
+		return pkg + c
 	}
 	name := f.Name()
 	if c, ok := funcAlias[f]; ok {
